@@ -241,6 +241,8 @@ func runControls(dir string) *controlResult {
 		{"RANGE-INDEX-BASE", map[string]bool{"BadSubSliceIndex": true, "GoodSubSliceIndex": false}},
 		{"APPEND-RESULT-USED", map[string]bool{"BadAppendResultDropped": true, "GoodAppendResultUsed": false}},
 		{"STALE-LEN", map[string]bool{"(*recBuf).BadStaleLen": true}},
+		{"SEARCH-HIT", map[string]bool{"BadSearchNoHitTest": true, "GoodSearchHitTest": false}},
+		{"ADVANCE-LOST", map[string]bool{"BadAdvanceLost": true, "GoodAdvanceKept": false}},
 	} {
 		rule := rules[rc.rule]
 		if rule == nil {
